@@ -256,7 +256,7 @@ func genC09Model(out *caseWriter, seed uint64, n int, args []string) error {
 
 // ---------------------------------------------------------------- observers
 
-func firstDiff(a, b string) int {
+func firstDiffOffset(a, b string) int {
 	n := len(a)
 	if len(b) < n {
 		n = len(b)
@@ -292,7 +292,7 @@ func obsC09Print(in string) string {
 			if r2.Stdout == p1 {
 				reprint = "same"
 			} else {
-				reprint = fmt.Sprintf("diff@%d", firstDiff(p1, r2.Stdout))
+				reprint = fmt.Sprintf("diff@%d", firstDiffOffset(p1, r2.Stdout))
 			}
 		}
 		r3 := runKnut(knutBin(), dir, nil, 20*time.Second, "check", g)
